@@ -52,7 +52,7 @@ def beh_model(names: tuple[str, ...] | list[str], first: int = 16, **kw: Any) ->
 
 def hsfz_trace(r: dict[str, Any]) -> dict[str, Any]:
     return {"cfg": r["scan"],
-            "probes": [{k: p[k] for k in ("src", "dst", "d", "ackdl", "ackdt", "anss")} for p in r["probes"]],
+            "probes": [{k: p[k] for k in ("src", "dst", "d", "ack", "ackdt", "anss")} for p in r["probes"]],
             "file": r["file"], "db": r["db"], "done": r["done"]}
 
 
@@ -84,6 +84,7 @@ class Cases:
 
 def hsfz_families(cases: Cases, tier: str, rnd: random.Random) -> None:
     thorough = tier == "thorough"
+    cases.add("baseline", beh_model(("pos", "silent", "neg", "err43")), scan_of(16, 19))      # items[0]: self-test base
     # ---- behaviours outside the design's alphabet, mixed with plain ones, every assignment, both directions
     pool = ["pos", "silent"] + EXTRA_BEH
     for beh in itertools.product(pool, repeat=2):
@@ -132,9 +133,11 @@ SETUP_NEG = (("devS4", "Inv_D1_DbFaultTolerated"), ("devNoTeardown", "Inv_G3_Sto
 def start_tlc_jobs(tier: str, pool: ThreadPoolExecutor) -> dict[str, Any]:
     """All TLC runs on the design layers are independent of each other and of the executions: run them concurrently."""
     thorough = tier == "thorough"
-    hs_mc = [("a2", True), ("c3", False)] + ([("a3", False), ("s4", False)] if thorough else [])
+    # quick: the export configurations carry every clause invariant and cover the quick state spaces, so they double as
+    # model-checking runs (fewer JVM starts); thorough adds the larger instances
+    hs_mc = [("a2", True)] + ([("c3", False), ("a3", False), ("s4", False)] if thorough else [])
     hs_exp = ["export2", "export3"] if thorough else ["export2core"]
-    su_mc = [("cov", True), ("full" if thorough else "quick", False)]
+    su_mc = [("cov", True)] + ([("full", False)] if thorough else [])
     jobs: dict[str, Any] = {}
     for c, cov in hs_mc:
         jobs["h:" + c] = pool.submit(tlc.run_tlc, "MC_HsfzDiscover", f"MC_HsfzDiscover_{c}.cfg", timeout=3000,
@@ -183,7 +186,9 @@ def hsfz_spec_to_code(rep: Report, cases: Cases, tj: dict[str, Any]) -> None:
     want: dict[tuple[tuple[str, ...], bool], set[tuple[int, ...]]] = {}
     for cfg in tj["hs_exp"]:
         res = tj["jobs"]["h:" + cfg].result()
-        rep.add_tlc(res, f"MC_HsfzDiscover_{cfg} (case export)")
+        rep.add_tlc(res, f"MC_HsfzDiscover_{cfg} (case export, all clause invariants)")
+        if not res.ok:
+            rep.violate(f"design/{res.violated}", {"where": "MC_HsfzDiscover design layer", "cfg": cfg}, {"cex": res.cex[-12:]})
         for p in res.prints:
             if isinstance(p, list) and len(p) == 4 and p[0] == "C":
                 beh = tuple(v for _k, v in sorted(p[1]["$fn"])) if isinstance(p[1], dict) else tuple(p[1])
@@ -222,7 +227,7 @@ def validate(module: str, traces: list[dict[str, Any]], rep: Report) -> tuple[di
         for p in res.prints:
             if isinstance(p, list) and len(p) == 3 and p[0] == "V":
                 verdicts[p[1]] = p[2]
-            elif isinstance(p, list) and len(p) == 3 and p[0] == "U":
+            elif isinstance(p, list) and len(p) == 3 and p[0] == "U" and p[1] < SELF:
                 unspec += int(p[2] > 0)
     missing = [t["id"] for t in traces if t["id"] not in verdicts]
     if missing:
@@ -230,17 +235,11 @@ def validate(module: str, traces: list[dict[str, Any]], rep: Report) -> tuple[di
     return verdicts, unspec
 
 
-def hsfz_self_test(rep: Report, cases: list[dict[str, Any]], verdicts: dict[int, str]) -> None:
-    def plain(c: dict[str, Any]) -> bool:
-        m = c["model"]
-        behs = list(m.get("beh", {}).values())
-        return (len(behs) >= 2 and behs[0] == "pos" and set(behs) <= {"pos", "neg", "silent", "err43", "ackonly"}
-                and not m.get("drop_every") and not c["scan"]["reversed"] and c["scan"]["stop"] - c["scan"]["start"] >= 1
-                and c["scan"]["stop"] - c["scan"]["start"] < 8)
+SELF = 1_000_000     # ids of the self-test traces inside a validation batch
 
-    good = next((c for i, c in enumerate(cases) if verdicts[i] == "ok" and plain(c)), None)
-    if good is None:
-        raise Machinery("binding self-test (hsfz): no accepted plain sweep execution")
+
+def hsfz_self_probes(good: dict[str, Any]) -> list[tuple[str, dict[str, Any], str]]:
+    """Corruptions of one plain accepted execution (the baseline case) + a run against a mutant of the gateway fake."""
     base = hsfz_trace(good["res"])
     probes: list[tuple[str, dict[str, Any], str]] = []
     t = json.loads(json.dumps(base))
@@ -276,13 +275,22 @@ def hsfz_self_test(rep: Report, cases: list[dict[str, Any]], verdicts: dict[int,
             p["anss"] = []      # what a fake would log that follows its model
     probes.append(("gateway fake that answers what it logs as silent", t, "F1/found-without-answer-from-that-address"))
     for i, (_w, tr, _v) in enumerate(probes):
-        tr["id"] = i
-    res = tlc.validate_batch("Trace_HsfzDiscover", "Trace_HsfzDiscover.cfg", {"traces": [p[1] for p in probes]}, timeout=600)
-    got = {p[1]: p[2] for p in res.prints if isinstance(p, list) and len(p) == 3 and p[0] == "V"}
+        tr["id"] = SELF + i
+    return probes
+
+
+def check_self_probes(rep: Report, part: str, base_verdict: str, probes: list[tuple[str, dict[str, Any], str]],
+                      verdicts: dict[int, str]) -> None:
+    if base_verdict != "ok":
+        if rep.violations:   # the baseline itself is rejected: the violations are the result of this run
+            rep.extra[f"self_test_{part}"] = f"skipped: baseline execution rejected ({base_verdict}), violations reported"
+            return
+        raise Machinery(f"binding self-test ({part}): baseline execution rejected ({base_verdict}) without a violation")
     for i, (what, _tr, want) in enumerate(probes):
-        if got.get(i) != want:
-            raise Machinery(f"binding self-test (hsfz): {what}: TLC says {got.get(i)!r}, expected {want!r}")
-    rep.extra["self_test_hsfz"] = [p[0] for p in probes]
+        got = verdicts.get(SELF + i)
+        if got != want:
+            raise Machinery(f"binding self-test ({part}): {what}: TLC says {got!r}, expected {want!r}")
+    rep.extra[f"self_test_{part}"] = [p[0] for p in probes]
 
 
 def hsfz_unspecified(rep: Report) -> None:
@@ -354,13 +362,15 @@ def setup_families(cases: SetupCases, tier: str) -> None:
 
 def setup_spec_to_code(rep: Report, cases: SetupCases, tier: str, rnd: random.Random, tj: dict[str, Any]) -> None:
     res = tj["jobs"]["s:export"].result()
-    rep.add_tlc(res, "MC_UdsScannerSetup_export (case export)")
+    rep.add_tlc(res, "MC_UdsScannerSetup_export (case export, all clause invariants)")
+    if not res.ok:
+        rep.violate(f"design/{res.violated}", {"where": "MC_UdsScannerSetup design layer", "cfg": "export"}, {"cex": res.cex[-12:]})
     exported = [p for p in res.prints if isinstance(p, list) and len(p) == 5 and p[0] == "K"]
     if not exported:
         raise Machinery("MC_UdsScannerSetup export produced no cases")
     exported.sort(key=lambda p: json.dumps(p[1:4], sort_keys=True))
     rnd.shuffle(exported)
-    pick = exported if tier == "thorough" and len(exported) <= 4000 else exported[: 4000 if tier == "thorough" else 220]
+    pick = exported if tier == "thorough" and len(exported) <= 4000 else exported[: 4000 if tier == "thorough" else 400]
     nrep = ndrift = 0
     for _k, cfg, ecu, plan, summ in pick:
         case = setup_case(ping=cfg["ping"], tp=cfg["tp"], interval=cfg["interval"] / 1000.0, props=cfg["props"],
@@ -388,16 +398,9 @@ def setup_spec_to_code(rep: Report, cases: SetupCases, tier: str, rnd: random.Ra
     rep.extra["spec_to_code_setup_drift"] = ndrift
 
 
-def setup_self_test(rep: Report, cases: list[dict[str, Any]], verdicts: dict[int, str]) -> None:
-    def rich(c: dict[str, Any]) -> bool:
-        k = c["case"]
-        return bool(k["ping"] and k["tp"] and k["props"] and k["compare"] and k["db"] and k["art"] and not k["db_fail"]
-                    and k["main"]["write"] and not k["main"]["fail"] and k["main"]["ms"] > 2000 * k["interval"]
-                    and k.get("reset") is None)
-
-    good = next((c for i, c in enumerate(cases) if verdicts[i] == "ok" and rich(c)), None)
-    if good is None:
-        raise Machinery("binding self-test (setup): no accepted rich run (ping, worker, properties, db, artifacts, write)")
+def setup_self_probes(good: dict[str, Any]) -> list[tuple[str, dict[str, Any], str]]:
+    """Corruptions of the baseline run (ping, worker, properties, db, artifacts, main writes the property) + a run
+    against a mutant of the ECU fake."""
     base = setup_trace(good["res"])
     probes: list[tuple[str, dict[str, Any], str]] = []
     t = json.loads(json.dumps(base))
@@ -410,6 +413,9 @@ def setup_self_test(rep: Report, cases: list[dict[str, Any]], verdicts: dict[int
     t = json.loads(json.dumps(base))
     t["reqs"].append({"t": t["runEnd"] + 400, "ph": "after", "k": "tp", "res": "pos", "v": -1, "lvl": -1})
     probes.append(("tester present after the run", t, "G3/not-quiet-after-teardown"))
+    t = json.loads(json.dumps(base))
+    t["leaked"] = 1
+    probes.append(("a background task left pending after the run", t, "G3/not-quiet-after-teardown"))
     t = json.loads(json.dumps(base))
     t["reqs"] = [e for e in t["reqs"] if not (e["k"] == "tp" and e["ph"] == "setup")]
     probes.append(("initial tester present removed", t, "G1/initial-tester-present"))
@@ -426,17 +432,12 @@ def setup_self_test(rep: Report, cases: list[dict[str, Any]], verdicts: dict[int
     t["runOut"] = "exc"
     probes.append(("run reported as failed although main returned", t, "L2/run-outcome-differs-from-main"))
     # a mutant of the ECU fake: the property value it logs is not the one it sent
-    r = run_case(good["case"], mutant="logs-other-prop-value")
+    r = run_case(good["case"], mutant="logs-other-prop-value")  # noqa
     probes.append(("ECU fake that logs another property value than it sent", setup_trace(r),
                    "H2/stored-properties-differ-from-what-the-ecu-said"))
     for i, (_w, tr, _v) in enumerate(probes):
-        tr["id"] = i
-    res = tlc.validate_batch("Trace_UdsScannerSetup", "Trace_UdsScannerSetup.cfg", {"traces": [p[1] for p in probes]}, timeout=600)
-    got = {p[1]: p[2] for p in res.prints if isinstance(p, list) and len(p) == 3 and p[0] == "V"}
-    for i, (what, _tr, want) in enumerate(probes):
-        if got.get(i) != want:
-            raise Machinery(f"binding self-test (setup): {what}: TLC says {got.get(i)!r}, expected {want!r}")
-    rep.extra["self_test_setup"] = [p[0] for p in probes]
+        tr["id"] = SELF + i
+    return probes
 
 
 def setup_unspecified(rep: Report) -> None:
@@ -505,8 +506,11 @@ def run(tier: str, seed: int) -> Report:
         t = setup_trace(c["res"])
         t["id"] = i
         strs.append(t)
-    hv, hu = validate("Trace_HsfzDiscover", htr, rep)
-    sv, s_u = validate("Trace_UdsScannerSetup", strs, rep)
+    hprobes, sprobes = hsfz_self_probes(hs.items[0]), setup_self_probes(su.items[0])
+    with ThreadPoolExecutor(max_workers=2) as pool:
+        fh = pool.submit(validate, "Trace_HsfzDiscover", htr + [p[1] for p in hprobes], rep)
+        fs = pool.submit(validate, "Trace_UdsScannerSetup", strs + [p[1] for p in sprobes], rep)
+        (hv, hu), (sv, s_u) = fh.result(), fs.result()
     rep.extra["executions_with_unspecified_parts"] = {"hsfz": hu, "setup": s_u}
     rep.traces = rep.evaluations = len(htr) + len(strs)
     fam: dict[str, int] = {}
@@ -540,11 +544,11 @@ def run(tier: str, seed: int) -> Report:
         r = c["res"]
         rep.sample({"part": 2, "family": c["family"], "case": c["case"], "run": r["run"], "db": r["db"],
                     "requests": [(e["t"], e["ph"], e["k"], e["res"]) for e in r["log"]][:14]})
-    hsfz_self_test(rep, hs.items, hv)
-    setup_self_test(rep, su.items, sv)
+    check_self_probes(rep, "hsfz", hv[0], hprobes, hv)
+    check_self_probes(rep, "setup", sv[0], sprobes, sv)
     rep.exhaustive = True
     rep.extra["exhaustive_over"] = ("part 1: all behaviour assignments of the design alphabet to 2 swept addresses x --reversed"
-                                    + (" (thorough: and of the core alphabet to 3)" if tier == "thorough" else
+                                    + (" (and of the core alphabet of 11 behaviours to 3)" if tier == "thorough" else
                                        " (quick: core alphabet of 11 behaviours)")
                                     + "; part 2: the stated configuration products"
                                     + ("; all environments of the design layer" if tier == "thorough" else
